@@ -97,6 +97,15 @@ def make_cases(rng, tier):
     if tier == "thorough":
         lvl2 = exhaustive_preds(2, cols)
         items += [(p, rows) for p in rng.sample(lvl2, min(len(lvl2), 6000))]
+    # a term next to the negation of a compound that contains it (three levels deep, beyond the exhaustive sweep of the
+    # quick tier): a AND NOT (a AND b) is satisfiable, a AND NOT (a OR b) is not
+    atoms = [("pref", cols[0]), ("cmp", "lt", ("ref", cols[0]), ("ref", cols[1])), ("in", ("ref", cols[1]), ("range", 0, 2, 1))]
+    xs = atoms + [("and", atoms[:2]), ("or", atoms[:2])]
+    ys = atoms + [(k, [u, v]) for k in ("and", "or") for u in atoms for v in atoms if u != v]
+    for x in xs:
+        for y in ys:
+            items += [(("and", [x, ("not", y)]), rows), (("or", [x, ("not", y)]), rows), (("and", [("not", y), x]), rows),
+                      (("not", ("and", [("and", [x]), ("not", y)])), rows)]
     n = 600 if tier == "quick" else 6000
     for _ in range(n):
         c = gen.gen_schema(rng, allow_empty=False)
